@@ -269,6 +269,24 @@ class SHistory:
             d.lens = z3.Store(d.lens, k, IntVal(0))
 
 
+class SHistoryTotal(SHistory):
+    """{node: ([t0], [s0]) for node in G.nodes()}: a plain dict with every node as a key (no default entry); statuses of any sort"""
+
+    def __init__(self, tmin, name, times, stats):
+        self.tmin, self.name, self.times, self.stats = tmin, name, times, stats
+
+    def snap(self):
+        return SHistoryTotal(self.tmin, self.name, self.times.snap(), self.stats.snap())
+
+    def wellformed(self):
+        U = so.U()
+        return so.forall(U, lambda k: And(self.times.lens[k] >= 0, self.stats.lens[k] == self.times.lens[k],
+                                          self.times.dom[k], self.stats.dom[k]))
+
+    def at(self, k):
+        return (self.times.at(k), self.stats.at(k))
+
+
 class SSet:
     kind = 'set'
 
